@@ -1750,6 +1750,10 @@ dt_dtcmp(struct dt_dt_s d1, struct dt_dt_s d2)
 		/* always equal */
 		return -2;
 	}
+	if (d1.typ == DT_SEXY || d1.typ == DT_SEXYTAI) {
+		/* epoch values have no date/time slots to go through */
+		return d1.sexy < d2.sexy ? -1 : d1.sexy > d2.sexy;
+	}
 	/* go through it hierarchically and without upmotes */
 	switch (d1.d.typ) {
 		int res;
@@ -1757,8 +1761,17 @@ dt_dtcmp(struct dt_dt_s d1, struct dt_dt_s d2)
 	case DT_DUNK:
 	default:
 		goto try_time;
+	case DT_JDN:
+		if (d1.d.jdn < d2.d.jdn) {
+			return -1;
+		} else if (d1.d.jdn > d2.d.jdn) {
+			return 1;
+		}
+		goto try_time;
 	case DT_YMD:
 	case DT_DAISY:
+	case DT_LDN:
+	case DT_MDN:
 	case DT_BIZDA:
 	case DT_YWD:
 	case DT_YD:
